@@ -246,7 +246,7 @@ theorem mpsc_queued_suffix_per_sender (c : Cfg) (s : State) (h : Reachable c s) 
 the receiver calls `close()`, the CLOSE byte reaches `send_impl` while two values are still queued -/
 def cfg3 : Cfg := { cap := 3, rcap := 2 }
 def qsRun : List Label :=
-  [.clone, .send ⟨1, 0, .no⟩, .admit, .send ⟨2, 1, .no⟩, .admit, .send ⟨3, 0, .no⟩, .admit, .implTake, .xmitDone,
+  [.clone, .send ⟨1, 0, .no⟩, .grant, .send ⟨2, 1, .no⟩, .grant, .send ⟨3, 0, .no⟩, .grant, .implTake, .xmitDone,
    .close, .rSeeClosed, .implBack]
 
 example : (run cfg3 (init 1 0 0) qsRun).accepted.map (·.id) = [1, 2, 3] ∧
@@ -423,9 +423,9 @@ theorem mpsc_close_observable_at_quiescence (c : Cfg) (s : State) (h : Reachable
     · exact ⟨by simp [hr], fun _ _ => hr⟩
 
 /-! non-vacuity of the three clauses: quiescent states reached by `settle` -/
-def obsClose : State := settle cfg3 (run cfg3 (init 2 0 0) [.send ⟨1, 0, .no⟩, .admit, .close]) 40
-def obsDrop : State := settle cfg3 (run cfg3 (init 2 0 0) [.send ⟨1, 0, .no⟩, .admit, .dropRx]) 40
-def obsConn : State := settle cfg3 (run cfg3 (init 2 0 0) [.send ⟨1, 0, .no⟩, .admit, .connFail]) 40
+def obsClose : State := settle cfg3 (run cfg3 (init 2 0 0) [.send ⟨1, 0, .no⟩, .grant, .close]) 40
+def obsDrop : State := settle cfg3 (run cfg3 (init 2 0 0) [.send ⟨1, 0, .no⟩, .grant, .dropRx]) 40
+def obsConn : State := settle cfg3 (run cfg3 (init 2 0 0) [.send ⟨1, 0, .no⟩, .grant, .connFail]) 40
 
 example : quiescentB cfg3 obsClose = true ∧ obsClose.handles = 2 ∧ obsClose.closeCalled = true ∧
     obsClose.rAlive = true ∧ obsClose.rHold = none ∧ obsClose.reason = some .closed := by decide
@@ -503,8 +503,8 @@ queued when the CLOSE byte arrives; the receiver drains and gets a clean end-of-
 def cfg4 : Cfg := { cap := 3, rcap := 4 }
 def eosRun : State :=
   run cfg4 (settle cfg4 (run cfg4 (init 2 1 0)
-    [.lsend ⟨10, 9, .no⟩, .send ⟨1, 0, .no⟩, .admit, .send ⟨2, 1, .no⟩, .admit, .implTake, .xmitDone, .implTake, .xmitDone,
-     .send ⟨3, 0, .no⟩, .admit, .close, .rSeeClosed, .implBack]) 40)
+    [.lsend ⟨10, 9, .no⟩, .send ⟨1, 0, .no⟩, .grant, .send ⟨2, 1, .no⟩, .grant, .implTake, .xmitDone, .implTake, .xmitDone,
+     .send ⟨3, 0, .no⟩, .grant, .close, .rSeeClosed, .implBack]) 40)
     [.recv, .recv, .recv, .recv]
 
 example : eosRun.eos = some true ∧ eosRun.impl = some .close ∧ eosRun.handles = 2 ∧ eosRun.reason = some .closed ∧
